@@ -159,7 +159,8 @@ def TableOK (st : Style) : Prop :=
    fieldKw st "multipleOf" = some "multiple_of") ∧
   (fieldKw st "minLength" = some "min_length" ∧ fieldKw st "maxLength" = some "max_length" ∧
    fieldKw st "pattern" = some (patKw st)) ∧
-  (fieldKw st "minItems" = some (minItemsKw st) ∧ fieldKw st "maxItems" = some (maxItemsKw st))
+  (fieldKw st "minItems" = some (minItemsKw st) ∧ fieldKw st "maxItems" = some (maxItemsKw st)) ∧
+  (extraOf st .absent ≠ .forbid ∧ extraOf st .allow ≠ .forbid)
 
 instance (st : Style) : Decidable (TableOK st) := by unfold TableOK; infer_instance
 
@@ -246,7 +247,7 @@ open Dcg.Sem Dcg.Sem.Pyd Dcg.Model.Constraints Dcg.Model.Translate
 theorem acceptsScalar_typeCons (st : Style) (o : Opts) (re : Regex) (h : TableOK st) (ty : STy)
     (b : Bounds) (v : Json) (hok : scalarOK ty b = true) (hv : validScalar re ty b v = true) :
     acceptsScalar st re ty (typeCons st o ty b) v ≠ .reject := by
-  obtain ⟨⟨i1, i2, i3, i4, i5⟩, ⟨n1, n2, n3, n4, n5⟩, ⟨s1, s2, s3⟩, _, _, _⟩ := h
+  obtain ⟨⟨i1, i2, i3, i4, i5⟩, ⟨n1, n2, n3, n4, n5⟩, ⟨s1, s2, s3⟩, _, _, _, _⟩ := h
   unfold typeCons
   cases hfc : o.fieldConstraints
   · -- constrained types
@@ -269,7 +270,7 @@ theorem acceptsScalar_typeCons (st : Style) (o : Opts) (re : Regex) (h : TableOK
 theorem checkCons_fieldConsOfBounds (st : Style) (re : Regex) (h : TableOK st) (ty : STy)
     (b : Bounds) (v : Json) (hok : scalarOK ty b = true) (hv : validScalar re ty b v = true) :
     checkCons st re (fieldConsOfBounds st ty b) v ≠ .reject := by
-  obtain ⟨_, _, _, ⟨f1, f2, f3, f4, f5⟩, ⟨g1, g2, g3⟩, _⟩ := h
+  obtain ⟨_, _, _, ⟨f1, f2, f3, f4, f5⟩, ⟨g1, g2, g3⟩, _, _⟩ := h
   unfold fieldConsOfBounds
   cases ty <;> cases v <;> simp [validScalar] at hv <;>
     simp only [scalarOK, Bool.and_eq_true] at hok <;>
@@ -396,7 +397,7 @@ theorem array_case (h : TableOK st) (g : Nat) (ih : IHle st o re defs g) (ctx : 
     (items : Schema) (mn mx : Option Nat) (f : Nat) (v : Json) (hsub : items.inSubset = true)
     (hv : validJ re (f + 1) defs (.array items mn mx) v = true) :
     acceptsTy st re (g + 1) (trDefs st o defs) (tr st o ctx (.array items mn mx)) v ≠ .reject := by
-  obtain ⟨_, _, _, _, _, ⟨a1, a2⟩⟩ := h
+  obtain ⟨_, _, _, _, _, ⟨a1, a2⟩, _⟩ := h
   cases v <;> simp [validJ] at hv
   rename_i xs
   obtain ⟨hlen, hall⟩ := hv
@@ -447,7 +448,7 @@ theorem checkCons_fieldCons (h : TableOK st) (s : Schema) (hsub : s.inSubset = t
           exact checkCons_fieldConsOfBounds st re h ty b x hsub hv
     · -- array
       rename_i items mn mx
-      obtain ⟨_, _, _, _, _, ⟨a1, a2⟩⟩ := h
+      obtain ⟨_, _, _, _, _, ⟨a1, a2⟩, _⟩ := h
       cases x <;> simp [validJ] at hv
       simp [checkCons, checkLen_consOfItems st _ mn mx _ a1 a2, hv.1, Tri.ofBool]
 
@@ -505,11 +506,18 @@ theorem object_case (h : TableOK st) (g : Nat) (ih : IHle st o re defs g) (ctx :
     have hnames : (trProps st o req props).map (·.1) = props.map (·.1) := by
       rw [trProps_eq_map, List.map_map]; rfl
     rw [hnames]
-    cases addl with
-    | absent => simp [extraOf]
-    | allow => simp [extraOf]
-    | forbid =>
-      simp only [extraOf, beq_self_eq_true, if_true]
+    obtain ⟨_, _, _, _, _, _, ⟨e1, e2⟩⟩ := h
+    cases hex : extraOf st addl == Extra.forbid with
+    | false => simp
+    | true =>
+      have haddl : addl = .forbid := by
+        have hx : extraOf st addl = .forbid := by simpa using hex
+        cases addl with
+        | absent => exact absurd hx e1
+        | allow => exact absurd hx e2
+        | forbid => rfl
+      subst haddl
+      simp only [if_true]
       rw [ofBool_ne_reject, List.all_eq_true]
       intro kv hkv
       have hx := hall kv.1 kv.2 hkv
